@@ -68,8 +68,12 @@ def relational(cases, impl):
                 continue    # some "message" leaves a string or block open: its newline is not a terminator (DESIGN section 7)
             wbytes = ''.join(t[2:] for t in parse_list(fp.get('tr', '[]')) if t.startswith('W:')) or '-'
             if (fr.get('log'), fr.get('errs'), fr.get('q')) != (fp.get('log'), fp.get('errs'), fp.get('q')) or fr.get('out') != wbytes:
-                if '-223' in fp.get('errs', '') or '-310' in fp.get('errs', ''):
-                    continue    # a response did not fit the response buffer: run with an unbounded writer differs by design
+                nbuf = int(cases[procs[0]].op.split()[2])
+                out_run = fr.get('out', '-')
+                total = 0 if out_run == '-' else len(out_run) // 2
+                if ('-223' in fp.get('errs', '') or '-310' in fp.get('errs', '')) and total > nbuf:
+                    continue    # a response may not have fitted the N-byte response buffer: run with an unbounded writer differs by
+                                # design (when all responses of the stream together are at most N bytes, each of them fitted)
                 fails.append((i, f'run message by message gives log={fr.get("log")} errs={fr.get("errs")} out={fr.get("out")}, '
                                  f'process gives log={fp.get("log")} errs={fp.get("errs")} out={wbytes}'))
     return fails
@@ -91,6 +95,31 @@ def schedules(rng, stream, n, tier, exhaustive):
                 k = max(0, k)
                 s.append(k); tot += k
             out.append(s)
+    return out
+
+
+def echo_cases(rng, tier, echo):
+    """3. every echo query with a valid literal of its type (long float expansions included), one to three messages, buffers
+    in which message and response fit: process must do what run does message by message"""
+    out = []
+    echoes = [d for d in echo.decls if d.beh == 'echo']
+    fixed = [b'ECHO:F64? 1e40\n', b'ECHO:F64? -1e-35\n', b'ECHO:F32? 1e38\n', b'ECHO:F32? -1.5e-40\n', b'ECHO:F64? 123456789012345678901234567890123\n',
+             b'ECHO:F64? 1e33\n', b'ECHO:F64? 1e32\n', b'ECHO:F64? 1e31\n', b'ECHO:U64? 18446744073709551615\n', b'ECHO:I64? -9223372036854775808\n']
+    streams = [[m] for m in fixed]
+    for _ in range(60 if tier == 'quick' else 1500):
+        msgs = []
+        for _k in range(rng.randint(1, 3)):
+            d = rng.choice(echoes)
+            t, _entry, _ = G.valid_call(rng, echo, d, newline=False)
+            msgs.append(t + b'\n')
+        streams.append(msgs)
+    for gi, msgs in enumerate(streams):
+        stream = b''.join(msgs)
+        if any(len(m) > 256 for m in msgs):
+            continue
+        for sched in ([1] * len(stream), [], [rng.randint(1, 9) for _ in range(len(stream))]):
+            out.append(Case(f'PROC echo 256 {hx(stream)} {",".join(map(str, sched)) or "-"}', no_crash, {'group': f'echo{gi}', 'kind': 'PROC-echo'}))
+        out.append(Case('RUN echo std ' + '|'.join(hx(m) for m in msgs), no_crash, {'group': f'echo{gi}', 'kind': 'RUN-permsg'}))
     return out
 
 
@@ -158,4 +187,4 @@ def cases(tier, rng, ifaces):
             out.append(Case(f'PROC echo {n} {hx(stream)} {",".join(map(str, sched)) or "-"}{pend}', no_crash, {'group': gid, 'kind': 'PROC-gen'}))
         if one_nl and all(len(m) <= n for m in msgs):
             out.append(Case('RUN echo std ' + '|'.join(hx(m) for m in msgs), no_crash, {'group': gid, 'kind': 'RUN-permsg'}))
-    return out
+    return out + echo_cases(rng, tier, echo)
